@@ -382,30 +382,48 @@ func checkC10(c *Ctx) {
 		c.Unresolved("R3", "decodeTextBytes")
 	} else {
 		nret := 0
-		eachInstr(fn, func(_ *ssa.BasicBlock, _ int, in ssa.Instruction) {
-			r, ok := in.(*ssa.Return)
-			if !ok {
-				return
-			}
-			vals := returnedValues(r)
-			if len(vals) != 2 || !isNilConst(vals[1]) {
-				return
-			}
-			nret++
-			okCut := false
-			if sl, isSl := vals[0].(*ssa.Slice); isSl && sl.Low == nil && sl.High != nil {
-				// High == len(X) - 2
-				hv := stripConv(sl.High)
-				if bo, isBo := hv.(*ssa.BinOp); isBo && bo.Op == token.SUB {
-					if k, isC := constInt(bo.Y); isC && k == 2 {
-						if lc, isCall := bo.X.(*ssa.Call); isCall && isBuiltin(lc, "len") && lc.Call.Args[0] == sl.X {
-							okCut = true
+		var scan func(fn *ssa.Function, depth int)
+		scan = func(fn *ssa.Function, depth int) {
+			eachInstr(fn, func(_ *ssa.BasicBlock, _ int, in ssa.Instruction) {
+				r, ok := in.(*ssa.Return)
+				if !ok {
+					return
+				}
+				vals := returnedValues(r)
+				if len(vals) != 2 {
+					return
+				}
+				// the cut made by a helper whose results are handed on (`return trimCRLF(line)`)
+				if ex, isEx := vals[0].(*ssa.Extract); isEx && depth < 2 {
+					if call, isCall := ex.Tuple.(*ssa.Call); isCall {
+						if ex1, isEx1 := vals[1].(*ssa.Extract); isEx1 && ex1.Tuple == ex.Tuple {
+							if g := calleeFn(call.Common()); g != nil && isModFn(g) && g.Blocks != nil {
+								scan(g, depth+1)
+								return
+							}
 						}
 					}
 				}
-			}
-			c.Check(okCut, "R3", fmt.Sprintf("text decoder return#%d is the line without its last two bytes", nret), r.Pos(), "b[:len(b)-2]", "the text decoder does not return exactly the line minus its two terminator bytes (e.g. it trims every trailing CR/LF byte): a simple string, error or inline command whose payload ends in CR is decoded without it, so decoding what the encoder wrote is not the identity and the inline and the array form of one command decode differently")
-		})
+				if !isNilConst(vals[1]) {
+					return
+				}
+				nret++
+				okCut := false
+				if sl, isSl := vals[0].(*ssa.Slice); isSl && sl.Low == nil && sl.High != nil {
+					// High == len(X) - 2
+					hv := stripConv(sl.High)
+					if bo, isBo := hv.(*ssa.BinOp); isBo && bo.Op == token.SUB {
+						if k, isC := constInt(bo.Y); isC && k == 2 {
+							if lc, isCall := bo.X.(*ssa.Call); isCall && isBuiltin(lc, "len") && lc.Call.Args[0] == sl.X {
+								okCut = true
+							}
+						}
+					}
+				}
+				c.Check(okCut, "R3", fmt.Sprintf("text decoder return#%d is the line without its last two bytes", nret), r.Pos(), "b[:len(b)-2]", "the text decoder does not return exactly the line minus its two terminator bytes (e.g. it trims every trailing CR/LF byte): a simple string, error or inline command whose payload ends in CR is decoded without it, so decoding what the encoder wrote is not the identity and the inline and the array form of one command decode differently")
+			})
+		}
+		scan(fn, 0)
 		if nret == 0 {
 			c.Fail("R3", "text decoder returns a line", fn.Pos(), "decodeTextBytes has no successful return")
 		}
